@@ -29,18 +29,19 @@ import (
 
 // Case is one execution: the static tuple plus the answers to the choice points.
 type Case struct {
-	Sweep   string `json:"sweep"`             // consume | produce | roundtrip | dest
-	Codec   string `json:"codec"`             // bytestream | text | json | xml | yaml
-	Kind    string `json:"kind,omitempty"`    // destination kind (consume, dest), source kind (produce), "src>dst" (byte-exact roundtrip)
-	Stream  string `json:"stream,omitempty"`  // closer | plain | nil : the reader (consume) or writer (produce) handed to the codec
-	Close   bool   `json:"close,omitempty"`   // ClosesStream option (byte stream codec only)
-	Hex     string `json:"content_hex"`       // content, hex encoded
-	GenLen  int    `json:"gen_len,omitempty"` // >0: generated content of that length instead of Hex
-	Value   string `json:"value,omitempty"`   // name of the round-trip value (structured codecs)
-	Zero    int    `json:"zero_reads"`        // how many zero-length reads the scripted readers may offer
-	Errs    int    `json:"errs"`              // how many injected errors each scripted stream may offer
-	Bound   int    `json:"bound"`             // deviation bound used by the explorer (-1: every choice sequence)
-	Choices []int  `json:"choices"`           // answers to the choice points, 0 afterwards
+	Sweep     string `json:"sweep"`             // consume | produce | roundtrip | dest
+	Codec     string `json:"codec"`             // bytestream | text | json | xml | yaml
+	Kind      string `json:"kind,omitempty"`    // destination kind (consume, dest), source kind (produce), "src>dst" (byte-exact roundtrip)
+	Stream    string `json:"stream,omitempty"`  // closer | plain | nil : the reader (consume) or writer (produce) handed to the codec
+	Close     bool   `json:"close,omitempty"`   // ClosesStream option (byte stream codec only)
+	Hex       string `json:"content_hex"`       // content, hex encoded
+	GenLen    int    `json:"gen_len,omitempty"` // >0: generated content of that length instead of Hex
+	Value     string `json:"value,omitempty"`   // name of the round-trip value (structured codecs)
+	Zero      int    `json:"zero_reads"`        // how many zero-length reads the scripted readers may offer
+	Errs      int    `json:"errs"`              // how many injected errors each scripted stream may offer
+	ErrValues int    `json:"err_values"`        // how many error values (doubles.go readErrValues/writeErrValues) an injected error may take; 0/1 = plain sentinel
+	Bound     int    `json:"bound"`             // deviation bound used by the explorer (-1: every choice sequence)
+	Choices   []int  `json:"choices"`           // answers to the choice points, 0 afterwards
 }
 
 func (c Case) content() []byte {
@@ -265,12 +266,29 @@ func buildCases(thorough bool) (cases []Case, sizes map[string]any) {
 		"bytestream_source_kinds": len(bsProduceKinds), "text_source_kinds": len(textProduceKinds),
 		"structured_bad_destinations": len(badDests), "roundtrip_values": len(family),
 		"injected_errors_offered_per_stream": 2,
+		"error_values_read":                  []string{"plain sentinel", "error wrapping io.EOF", "error wrapping io.ErrUnexpectedEOF", "io.ErrUnexpectedEOF", "io.ErrClosedPipe"},
+		"error_values_write":                 []string{"plain sentinel", "io.ErrShortWrite", "io.ErrClosedPipe", "error wrapping io.EOF"},
+		"error_value_axis_applies_to":        "contents of <=2 bytes (exhaustive chunking), medium contents, 513/4097-byte contents, all round-trip and destination cases; other cases: plain sentinel",
 		"reader_behaviours_per_read":         "deliver all | 1 byte | all-1 | all together with io.EOF | zero-length read | non-EOF error together with k bytes, k in {0, 1, all}, after which the stream is sticky (keeps failing) | resumes (error not repeated) | ends with io.EOF losing the remaining bytes",
 		"writer_behaviours_per_write":        "accept all | error after accepting k bytes, k in {0, 1, all-1} (short write with error), after which the stream is sticky | resumes",
 		"close_behaviours":                   "Close succeeds | Close returns an error (the stream is closed either way); a closed stream fails every later Read/Write",
 		"shared_instance_sequences":          "after every successful byte-exact case the SAME consumer/producer value is used a second time on a fresh stream with the complemented content: the second result must be what a fresh instance gives and the first result must not change",
 	}
-	add := func(c Case) { cases = append(cases, c) }
+	// The error VALUE axis (plain sentinel, error wrapping io.EOF, error wrapping io.ErrUnexpectedEOF,
+	// io.ErrUnexpectedEOF, io.ErrClosedPipe; writers: plain, io.ErrShortWrite, io.ErrClosedPipe, wrapped io.EOF)
+	// is crossed with every (bytes delivered with the error, what the stream does afterwards, offset) for the
+	// contents of up to 2 bytes (all choice sequences), the medium contents, the 513 and 4097 byte contents
+	// and every round-trip / destination case; contents of 3-4 bytes, the longest contents and the 9 KB
+	// document get the plain sentinel only (their bytes add nothing to how an error value is classified).
+	add := func(c Case) {
+		c.ErrValues = 1
+		switch {
+		case c.Value == "tree-big" || c.GenLen > 4097:
+		case c.Sweep == "roundtrip" || c.Sweep == "dest" || c.GenLen > 0 || c.Bound >= 0 || len(c.Hex) <= 4:
+			c.ErrValues = len(readErrValues)
+		}
+		cases = append(cases, c)
+	}
 
 	// --- consumers of the byte-exact codecs ---
 	for _, codec := range []string{"bytestream", "text"} {
